@@ -22,6 +22,7 @@ Record ccall := {
   cc_attempts : list (part * (bool * bool));   (* outcome of the ConsumePartition attempts (Model.claim_try), default both fine *)
   cc_hbs : list hv; cc_commits : list bool;
   cc_started : list part; cc_consumed : list (part * nat); cc_produce : list part;
+  cc_errs : list (part * (nat * nat));  (* partition-consumer errors served while the claim lived: read from Errors() / not *)
   cc_fired : bool;                 (* the steady-state trigger was pulled before Consume returned *)
   (* observed *)
   cc_main : list event; cc_claims : list (part * list event); cc_hbids : list (Z * Z) }.
@@ -40,7 +41,7 @@ Definition rkind_eq_dec : forall a b : rkind, {a = b} + {a <> b}.
 Proof. decide equality; try apply Z.eq_dec; try apply Bool.bool_dec; apply (list_eq_dec zz_eq_dec). Defined.
 Definition event_eq_dec : forall a b : event, {a = b} + {a <> b}.
 Proof.
-  decide equality; try apply Z.eq_dec; try apply rkind_eq_dec; try apply cause_eq_dec; try apply cres_eq_dec;
+  decide equality; try apply Z.eq_dec; try apply rkind_eq_dec; try apply cause_eq_dec; try apply cres_eq_dec; try apply Bool.bool_dec;
   apply (list_eq_dec Z.eq_dec).
 Defined.
 Definition event_eqb (a b : event) : bool := if event_eq_dec a b then true else false.
@@ -98,6 +99,7 @@ Definition running_chunk (c : ccall) (plan : list part) : list input :=
   let rest := filter (fun p => negb (memz p (cc_started c))) plan in
   map (go c) (cc_started c)
   ++ flat_map (fun pn => repeat (IDeliver (fst pn)) (snd pn)) (cc_consumed c)
+  ++ flat_map (fun pe => repeat (IClaimError (fst pe) true) (fst (snd pe)) ++ repeat (IClaimError (fst pe) false) (snd (snd pe))) (cc_errs c)
   ++ trig_inputs c
   ++ map IClaimReturn (cc_started c)
   ++ map (go c) (filter (faulty c) rest)
@@ -171,8 +173,12 @@ Definition claims_ok (tr : list event) (obs : list (part * list event)) : bool :
   forallb (fun po => ev_list_eqb (claim_proj (fst po) tr) (snd po)) obs
   && forallb (fun p => memz p (map fst obs)) (parts_of tr []).
 
+Definition err_count (p : part) (d : bool) (tr : list event) : nat :=
+  length (filter (fun e => match e with EvClaimError q b => Z.eqb p q && Bool.eqb b d | _ => false end) tr).
+Definition errs_ok (tr : list event) (c : ccall) : bool :=
+  forallb (fun pe => Nat.eqb (err_count (fst pe) true tr) (fst (snd pe)) && Nat.eqb (err_count (fst pe) false tr) (snd (snd pe))) (cc_errs c).
 Definition call_ok (tr : list event) (c : ccall) : bool :=
-  ev_list_eqb (main_proj tr) (cc_main c) && claims_ok tr (cc_claims c) && list_eqb zz_eqb (hb_ids tr []) (cc_hbids c).
+  ev_list_eqb (main_proj tr) (cc_main c) && claims_ok tr (cc_claims c) && list_eqb zz_eqb (hb_ids tr []) (cc_hbids c) && errs_ok tr c.
 
 Fixpoint calls_ok (cf : cfg) (lv0 : lv) (w : world) (cs : list ccall) : bool * world :=
   match cs with
